@@ -191,6 +191,10 @@ def check_stream_law(ctx, data, sc, bs, scratch):
         # side, as for a strand-specific view): two entries, the second the reverse complement of the first
         from tola.assembly.assembly import Assembly
 
+        # the same index serves a writer with another gap character afterwards: the reversed scaffold streamed
+        # with gaps as 'n' is the mirrored rows with gaps as 'n'
+        o4 = io.BytesIO()
+        FastaStream(o4, fi, gap_character=b"n").write_scaffold(rev)
         o3 = io.BytesIO()
         FastaStream(o3, fi).write_assembly(Assembly("both", scaffolds=[s_obj, rev]))
         ctx.count("streamlaw:original-and-reversal-in-one-assembly")
@@ -255,6 +259,11 @@ def check_stream_law(ctx, data, sc, bs, scratch):
     want = b"".join(fasta_ref.apply([[sc[0], plain_reverse(sc[1])]], recs, 60).split(b"\n")[1:])
     if body2 != want:
         ctx.violation("streamed-reverse-differs-from-mirrored-rows", f"scaffold {sc} buffer={bs}\n got {body2[:120]!r}\nwant {want[:120]!r}", case)
+        return
+    want4 = fasta_ref.apply([[sc[0], plain_reverse(sc[1])]], recs, 60, gap_char=b"n")
+    ctx.count("streamlaw:reversed-with-another-gap-character")
+    if o4.getvalue() != want4:
+        ctx.violation("streamed-reverse-with-another-gap-character-differs-from-mirrored-rows", f"scaffold {sc} buffer={bs}\n got {o4.getvalue()[:160]!r}\nwant {want4[:160]!r}", case)
         return
     if len(body2) != len(body1):
         ctx.violation("streamed-reverse-length", f"{len(body1)} vs {len(body2)}", case)
